@@ -11,6 +11,7 @@ quick tier, 2000 each in the thorough tier) against the tie-tolerant specificati
 import asyncio
 import glob
 import json
+import logging
 import math
 import os
 import time as _time
@@ -40,6 +41,8 @@ ASSUMPTIONS = [
     '`integer` attribute do not change while entries are cached',
     'sample values are dyadic (multiples of 1/4, |v| <= 10^4); NaN/inf/other floats are outside the tie',
     'query-string numbers are plain decimal integers; strings such as " 12", "+3", "1_000" (accepted by int()) are not sent',
+    'settings.core.history_support is held at True (switching the feature off is outside the property); the log level of the '
+    'qtoggleserver loggers, settings.debug and settings.core.history_janitor_interval vary per sequence',
     'the periodic sampling task and the retention janitor are not modelled (the janitor deletes through the same '
     'remove_samples as DELETE); background removal (port removal) is not modelled',
     'among samples with equal timestamps the in-memory JSON driver answers in insertion order (strict oracle); other '
@@ -83,7 +86,6 @@ class Impl:
     ready = None
 
     def __init__(self):
-        import logging
         logging.getLogger('qtoggleserver.drivers.persist.json').setLevel(logging.ERROR)   # "using in-memory storage"
         from qtoggleserver.conf import settings
         settings.persist.driver = 'qtoggleserver.drivers.persist.JSONDriver'
@@ -139,6 +141,7 @@ class Impl:
             m.time = Clock
         self.handler = None
         self._application = None
+        self.saved_settings = None
 
     def restore(self):
         for m, t in self.patched:
@@ -268,6 +271,37 @@ def dump_cache(impl):
     return sorted(out, key=lambda e: (e[0], e[1]))
 
 
+class _Null(logging.Handler):
+    def emit(self, record):
+        pass
+
+
+_NULL = _Null()
+SETTING_DEFAULTS = {'debug_log': False, 'debug': False, 'janitor_interval': 3600}
+
+
+def apply_settings(impl, st):
+    """configuration the history code paths read, per sequence: log level of the qtoggleserver loggers (the persist layer
+    has `if logger.getEffectiveLevel() <= DEBUG` branches), settings.debug, settings.core.history_janitor_interval.
+    An empty dict restores what was there when the harness started."""
+    lg = logging.getLogger('qtoggleserver')
+    if impl.saved_settings is None:
+        impl.saved_settings = (lg.level, lg.propagate, impl.settings.debug, impl.settings.core.history_janitor_interval)
+    level, propagate, debug, janitor = impl.saved_settings
+    if st.get('debug_log'):
+        if _NULL not in lg.handlers:
+            lg.addHandler(_NULL)
+        lg.propagate = False
+        lg.setLevel(logging.DEBUG)
+    else:
+        if _NULL in lg.handlers:
+            lg.removeHandler(_NULL)
+        lg.propagate = propagate
+        lg.setLevel(level)
+    impl.settings.debug = bool(st['debug']) if 'debug' in st else debug
+    impl.settings.core.history_janitor_interval = int(st['janitor_interval']) if 'janitor_interval' in st else janitor
+
+
 async def run_impl(impl, cases, driver_kind='json'):
     """-> per case: list of observations {'resp':..., 'store': [...]|None (None = unchanged), 'cache': [...], 'note':...}"""
     h = impl.core_history
@@ -295,6 +329,7 @@ async def run_impl(impl, cases, driver_kind='json'):
             h._samples_cache.clear()
             del h._pending_remove_samples[:]
             Clock.now_ms = case['now0']
+            apply_settings(impl, case.get('settings') or {})
             for num, port in ports.items():
                 port._history_interval = -1 if case['on_change'].get(str(num)) else 0
                 port.set_last_read_value(None)
@@ -341,6 +376,7 @@ async def run_impl(impl, cases, driver_kind='json'):
                 prev = cur
             results.append(obs)
     finally:
+        apply_settings(impl, {})
         for port in ports.values():
             try:
                 await port.remove(persisted_data=False)
@@ -450,7 +486,7 @@ def evaluate(ctx, impl, cases, name, driver_kind='json', strict=True, shard=200)
         offsets.append(i)
     evals = ['bad_model cases', 'bad_spec cases'] if strict else ['bad_spec_relaxed cases']
     t0 = _time.time()
-    outs = coq.eval_shards(ctx.workdir, name, header(impl), shards, evals)
+    outs = coq.eval_shards(ctx.workdir, name, header(impl), shards, evals, jobs=2)
     if len(cases) > 20:
         ctx.log('%s: %d sequences, implementation %.1fs, coqc (%d shards) %.1fs' % (
             name, len(cases), t_impl, len(shards), _time.time() - t0))
@@ -580,7 +616,9 @@ def gen_case(rng, min_age):
             clock += ms
             requests.append({'op': 'tick', 'ms': ms})
     on_change = {str(p): (rng.random() < (0.85 if p == focus else 0.5)) for p in PORTS}
-    return {'now0': now0, 'on_change': on_change, 'store': store, 'requests': requests}
+    settings = {'debug_log': rng.random() < 1 / 3, 'debug': rng.random() < 0.25,
+                'janitor_interval': rng.choice([3600, 3600, 1, 60, 86400])}
+    return {'now0': now0, 'on_change': on_change, 'store': store, 'requests': requests, 'settings': settings}
 
 
 def fixed_cases(min_age):
@@ -697,6 +735,7 @@ def summarize(case, obs, step):
     return {
         'ports': {OID_NAMES[p]: {'kind': PORTS[p][1], 'history_interval': -1 if case['on_change'].get(str(p)) else 0} for p in PORTS},
         'clock_ms': case['now0'],
+        'settings': dict(SETTING_DEFAULTS, **(case.get('settings') or {})),
         'stored_samples': [{'port': OID_NAMES[s[0]], 'timestamp': s[1], 'value': s[2] / 4} for s in case['store']],
         'requests': [describe_request(r) for r in case['requests']],
         'failing_step': step,
@@ -728,6 +767,27 @@ def run_batch(ctx, res, impl, cases, name, labels=None, do_shrink=True):
                     dist['by-timestamps unsorted'] = dist.get('by-timestamps unsorted', 0) + 1
             if o['note']:
                 res['tie_failures'].append({'note': o['note'], 'request': describe_request(r)})
+        st = dict(SETTING_DEFAULTS, **(case.get('settings') or {}))
+        if st['debug_log']:
+            dist['sequences with qtoggleserver loggers at DEBUG'] = dist.get('sequences with qtoggleserver loggers at DEBUG', 0) + 1
+        if st['debug']:
+            dist['sequences with settings.debug'] = dist.get('sequences with settings.debug', 0) + 1
+        jk = 'sequences with history_janitor_interval=%d' % st['janitor_interval']
+        dist[jk] = dist.get(jk, 0) + 1
+        for i, (r, o) in enumerate(zip(case['requests'], obs)):
+            # cold misses: requested timestamps that were not in the cache before this request
+            if r['op'] == 'get' and 'timestamps' in r['query'] and o['resp'][0] == 'entries':
+                before = {(e[0], e[1]) for e in (obs[i - 1]['cache'] if i else [])}
+                cold = [int(t) for t in r['query']['timestamps'].split(',') if (r['port'], int(t)) not in before]
+                tags = []
+                if cold != sorted(cold):
+                    tags.append('unsorted')
+                if len(set(cold)) < len(cold):
+                    tags.append('duplicate')
+                for tag in tags:
+                    for k2 in ['by-timestamps with %s uncached timestamps' % tag] + (
+                            ['by-timestamps with %s uncached timestamps, loggers at DEBUG' % tag] if st['debug_log'] else []):
+                        dist[k2] = dist.get(k2, 0) + 1
         for i in range(1, len(obs)):
             r = case['requests'][i]
             if r['op'] == 'get' and 'timestamps' in r['query'] and obs[i]['resp'][0] == 'entries':
@@ -788,7 +848,8 @@ def check(ctx, res):
     res['rule'] = (
         'request sequences (2-12 requests: GET by timestamps with duplicates/unsorted/invalid items, GET range with '
         'present/absent/empty/negative/non-numeric from,to,limit, DELETE, value changes of number/integer/boolean ports '
-        'with history_interval -1 or 0, clock advances around the cache age) over random stores of 0-40 samples with '
+        'with history_interval -1 or 0, clock advances around the cache age; a third of the sequences with the qtoggleserver '
+        'loggers at DEBUG, a quarter with settings.debug, history_janitor_interval in {1, 60, 3600, 86400}) over random stores of 0-40 samples with '
         'clustered and equal timestamps on 4 ports + 1 orphan object; evaluations = requests executed; non-trivial = '
         'sequence with >= 2 stored samples and >= 2 kinds of request'
     )
